@@ -96,7 +96,7 @@ func c15NextGeneration(p *load.Program, r *oblig.Report) {
 			}
 		}
 	})
-	r.Check(same && n >= 3, rule, "nextGeneration → the generation closed is the one that was published", pos, "gen.close() on the value sent on cg.next (3 sites)", fmt.Sprintf("sites=%d same=%v", n, same))
+	r.Check(same && n >= 1, rule, "nextGeneration → the generation closed is the one that was published", pos, "every gen.close() in nextGeneration is applied to the value sent on cg.next (that one is reached on every path is the must-pass obligation above)", fmt.Sprintf("sites=%d same=%v", n, same))
 	// fetchOffsets precedes the creation of the generation on every path (C03.R5 shares this)
 	// nothing is sent after close: heartbeat and watchers are started before publication
 	hb := callsTo(fn, func(cc *ssa.CallCommon) bool { return calleeNamed(cc, "Generation", "heartbeatLoop") })
@@ -164,7 +164,7 @@ func c15StartClose(p *load.Program, r *oblig.Report) {
 				guarded := false
 				for _, pred := range ins.Block().Preds {
 					_, ci := an.IfCond(pred)
-					if ci != nil && ci.Op == token.EQL && isLoadOfField(ci.X, "Generation", "routines") && pred.Succs[0] == ins.Block() {
+					if ci.Edge(token.EQL) >= 0 && isLoadOfField(ci.X, "Generation", "routines") && pred.Succs[ci.Edge(token.EQL)] == ins.Block() {
 						if k, isK := an.ConstInt(ci.Y); isK && k == 0 {
 							guarded = true
 						}
@@ -329,10 +329,10 @@ func c15Functions(p *load.Program, r *oblig.Report) {
 				}
 				for _, b := range an.Blocks(body) {
 					_, ci := an.IfCond(b)
-					if ci != nil && ci.X == errVal && an.IsNilConst(ci.Y) && ci.Op == token.NEQ {
-						// the true edge returns (possibly through rundefers) without going back to the select
+					if ci != nil && ci.X == errVal && an.IsNilConst(ci.Y) && ci.Edge(token.NEQ) >= 0 {
+						// the err != nil edge returns (possibly through rundefers) without going back to the select
 						q := an.PathQuery{Fn: body, Target: func(i ssa.Instruction) bool { _, isSel := i.(*ssa.Select); return isSel }}
-						okErr = q.ReachableFrom(an.Point{B: b.Succs[0], Idx: -1}) == nil
+						okErr = q.ReachableFrom(an.Point{B: b.Succs[ci.Edge(token.NEQ)], Idx: -1}) == nil
 					}
 				}
 				// request fields
@@ -364,9 +364,9 @@ func c15Functions(p *load.Program, r *oblig.Report) {
 				if iff == nil {
 					continue
 				}
-				if ci != nil && ci.Op == token.NEQ && strings.Contains(argDesc(ci.X), "len") && strings.Contains(argDesc(ci.Y), "len") {
+				if e := ci.Edge(token.NEQ); e >= 0 && strings.Contains(argDesc(ci.X), "len") && strings.Contains(argDesc(ci.Y), "len") {
 					q := an.PathQuery{Fn: body, Target: func(i ssa.Instruction) bool { _, isSel := i.(*ssa.Select); return isSel }}
-					okChange = q.ReachableFrom(an.Point{B: b.Succs[0], Idx: -1}) == nil
+					okChange = q.ReachableFrom(an.Point{B: b.Succs[e], Idx: -1}) == nil
 				}
 				if c, isC := an.CondOf(iff).(*ssa.Call); isC && c.Call.StaticCallee() != nil && an.RefFuncName(c.Call.StaticCallee()) == "As" {
 					q := an.PathQuery{Fn: body, Target: func(i ssa.Instruction) bool { _, isSel := i.(*ssa.Select); return isSel }}
@@ -451,9 +451,11 @@ func c15RunLoop(p *load.Program, r *oblig.Report) {
 	// leaveGroup skips the request for an empty member id
 	_, ci := an.IfCond(lg.Blocks[0])
 	okEmpty := false
-	if ci != nil && ci.Op == token.EQL && strings.Contains(argDesc(ci.X), "param:memberID") {
+	if e := ci.Edge(token.EQL); e >= 0 && strings.Contains(argDesc(ci.X), "param:memberID") {
 		if c, isC := ci.Y.(*ssa.Const); isC && c.Value != nil && c.Value.ExactString() == `""` {
-			okEmpty = true
+			// the empty-id edge returns at once
+			blk := lg.Blocks[0].Succs[e]
+			_, okEmpty = blk.Instrs[len(blk.Instrs)-1].(*ssa.Return)
 		}
 	}
 	r.Check(okEmpty, rule, "leaveGroup does nothing when no member id was ever assigned", p.Pos(lg.Pos()), `if memberID == "" { return nil }`, "not recognised")
